@@ -864,7 +864,7 @@ void generate(uint64_t seed, Plan & plan)
 			while(open-- > 0) l.push_back(Op(O_DQN_CLOSE));
 			plan.tasks.push_back(l);
 		}
-		if(rng.chance(1, 3)) {
+		if(rng.chance(3, 5)) {
 			OpList l;
 			const int n = 1 + (int)rng.below(3);
 			for(int i = 0; i < n; ++i) l.push_back(consumerOp(rng, m, heter, nextId));
